@@ -312,7 +312,10 @@ let run_case (toks : string list) : string =
                  done
                with Exit -> ());
               (match !cur with
-               | Some c -> h := Some { c with htick = tick }
+               | Some c ->
+                 (* Dmd::run(0) after the tick: the clock has advanced, nothing ran *)
+                 let c = if n = 0 then { c with hnow = Z.add c.hnow tick } else c in
+                 h := Some { c with htick = tick }
                | None -> h := None);
               emit !res
             | WriteN (addr, n) ->
